@@ -1,4 +1,5 @@
 import IdModel.Store.Model
+import IdModel.Store.Fragment
 import Driver.C04
 /-! Line-protocol handler for C09 (storage-backed generate / purge histories with fault masks).
 See harness/src/c09.rs for the request grammar. -/
@@ -17,6 +18,16 @@ def parseMask (t : String) : Option Faults :=
   | _ => none
 
 def parseFragArg (t : String) : Option (Option (Option Nat)) :=
+  -- `S<hex>`: the fragment string itself; whether it is a fragment, and which, is decided by the C10 model of
+  -- `DIDUrl::join` behind `VerificationMethod::new_from_jwk` (the base DID of the stream has no `%`, path, query)
+  if t.startsWith "S" then
+    match Driver.unhex (t.drop 1).toString with
+    | some bs =>
+      match methodFragment ("did:ex:d0".toUTF8.toList.map (·.toNat)) bs with
+      | none => some none
+      | some f => some (some (some (fragmentNumber f)))
+    | none => none
+  else
   if t == "X" || (t.length == 2 && t.startsWith "X") then some none  -- `X<n>`: other strings that are no fragment
   else if t == "~" then some (some none)
   else t.toNat?.map (fun n => some (some n))
